@@ -116,6 +116,11 @@ def materialise(case, d):
                 files["%s-%s.tar.gz" % (n.replace("-", "_"), v)] = sdist_bytes(n, v, reqs)
                 continue
             extras = sorted({e for r in reqs for e in (["x"] if 'extra == "x"' in r else []) + (["y"] if 'extra == "y"' in r else [])})
+            if [n, v] in case.get("multi_platform", []):
+                # the usual shape on an index: one build tagged for several manylinux levels, another for a level in between
+                files[B.wheel_name(n, v, plat="manylinux_2_5_x86_64.manylinux_2_17_x86_64")] = B.wheel_bytes(n, v, requires=reqs, extras=extras, body="# build A\n")
+                files[B.wheel_name(n, v, plat="manylinux_2_12_x86_64")] = B.wheel_bytes(n, v, requires=reqs, extras=extras, body="# build B\n")
+                continue
             files[B.wheel_name(n, v)] = B.wheel_bytes(n, v, requires=reqs, extras=extras)
     for n, v in case.get("broken_sdists", []):
         files["%s-%s.tar.gz" % (n.replace("-", "_"), v)] = sdist_bytes(n, v, [], analysable=False)
@@ -153,7 +158,7 @@ def run_inproc(d, files, listing_seed=None):
     try:
         with contextlib.redirect_stdout(out), contextlib.redirect_stderr(err):
             try:
-                C.compile_main(list(files) + ["--find-links", "links", "--no-index"])
+                C.compile_main(list(files) + ["--find-links", "links", "--no-index", "--hashes"])
             except SystemExit as ex:
                 code = ex.code if isinstance(ex.code, int) else 1
             except Exception as ex:
@@ -171,7 +176,7 @@ def run_subproc(d, files, seed):
     env["PYTHONHASHSEED"] = str(seed)
     env["PYTHONPATH"] = "/repo"
     env.pop("REQ_COMPILE_VERIF", None)
-    p = subprocess.run([sys.executable, "-W", "ignore", "-m", "req_compile.cmdline"] + list(files) + ["--find-links", "links", "--no-index"],
+    p = subprocess.run([sys.executable, "-W", "ignore", "-m", "req_compile.cmdline"] + list(files) + ["--find-links", "links", "--no-index", "--hashes"],
                        cwd=d, env=env, stdout=subprocess.PIPE, stderr=subprocess.PIPE, timeout=120)
     return {"code": p.returncode, "stdout": p.stdout.decode("utf-8", "replace"), "stderr_tail": p.stderr.decode("utf-8", "replace")[-300:]}
 
@@ -182,6 +187,7 @@ class CliVariants(Stream):
     thorough_n = 2500
     batch = 5
     parallel_quick = 8
+    shrink_budget = 30        # one evaluation is a dozen command-line runs
 
     def setup(self):
         self.tmp = tempfile.mkdtemp(prefix="rvc07")
@@ -190,7 +196,7 @@ class CliVariants(Stream):
         shutil.rmtree(getattr(self, "tmp", ""), ignore_errors=True)
 
     def generate(self, rng):
-        case = SS.gen_universe(rng, rng.choice(["dag-free", "dag", "dag", "extras", "cyclic"]))
+        case = SS.gen_universe(rng, rng.choice(["dag-free", "dag", "dag", "extras", "cyclic"] + list(SS.SHAPES)))
         case["constraints"] = []
         other = SS.gen_universe(rng, "dag")
         case["history"] = {"universe": other["universe"], "inputs": other["inputs"]}
@@ -202,6 +208,9 @@ class CliVariants(Stream):
             if not any("extra ==" in r for r in case["universe"][n][v]):
                 case["sdists"] = [[n, v]]
                 case["history"] = {"universe": {}, "inputs": [[n]], "broken_sdists": [[n, v]]}
+        if rng.random() < 0.3:
+            n = rng.choice(sorted(case["universe"]))
+            case["multi_platform"] = [[n, v] for v in case["universe"][n] if [n, v] not in case.get("sdists", [])]
         case["vseed"] = rng.randint(1, 10 ** 6)
         return case
 
@@ -256,6 +265,8 @@ class CliVariants(Stream):
         fl = ["shape:" + case["shape"], "exit:%s" % r["base"]["code"]]
         if case.get("sdists"):
             fl.append("source-archive-and-same-named-broken-one-in-history")
+        if case.get("multi_platform"):
+            fl.append("two-builds-with-several-platform-tags")
         if len(case["inputs"]) > 1:
             fl.append("two-input-files")
         if any(len(rs) > 1 for rs in case["inputs"]):
@@ -388,6 +399,20 @@ class SolvePermuted(Stream):
 
     def shrink(self, case):
         return CliVariants.shrink(self, case)
+
+
+def directed(disagreements):
+    """failing-input search: a universe on which the real solver and the solver model differ is run through the real
+    command line under several hash seeds, listings and histories (the differences a model cannot exhibit)"""
+    out = []
+    for dgr in disagreements:
+        if dgr["stream"] != "solve-permuted" or len(out) >= 6:
+            continue
+        c = dict(dgr["case"])
+        c.setdefault("constraints", [])
+        c["history"] = {"universe": {"zz": {"1.0": []}}, "inputs": [["zz"]]}
+        out.append(("cli-variants", c))
+    return out
 
 
 def streams():
